@@ -273,6 +273,7 @@ pub fn run_parent(prop: &'static dyn Property, tier: Tier, seed: u64) -> Outcome
     let mut extra_violations: Vec<ViolationRec> = Vec::new();
     let mut inconclusive: Vec<String> = Vec::new();
     let mut slow_cases: Vec<String> = Vec::new();
+    let mut confirmed_hangs: std::collections::HashMap<u64, u32> = std::collections::HashMap::new();
 
     let replay_dir = PathBuf::from(format!("{}/replays/{}", known::verif_root(), id));
 
@@ -333,7 +334,14 @@ pub fn run_parent(prop: &'static dyn Property, tier: Tier, seed: u64) -> Outcome
                         Some(m) if m.state == 1 || m.state == 3 => {
                             let (ord, idx) = (m.section_ord, m.index);
                             let hang = code == Some(EXIT_HANG_SUSPECT) || m.state == 3;
-                            if hang {
+                            if hang && confirmed_hangs.get(&ord).copied().unwrap_or(0) >= 2 {
+                                // this section already has two confirmed hangs (the run fails
+                                // anyway): do not spend another HANG_CONFIRM_S on every suspect
+                                slow_cases.push(format!(
+                                    "section {} index {}: further hang suspect, not re-confirmed (section already has confirmed hangs)",
+                                    ord, idx
+                                ));
+                            } else if hang {
                                 // confirm alone, without parallel load pressure on its clock
                                 let (st, info) = run_single(
                                     &exe,
@@ -347,6 +355,7 @@ pub fn run_parent(prop: &'static dyn Property, tier: Tier, seed: u64) -> Outcome
                                 );
                                 match st {
                                     None => {
+                                        *confirmed_hangs.entry(ord).or_insert(0) += 1;
                                         let f = super::Fail::new(
                                             format!("hang:section{}", ord),
                                             format!(
